@@ -33,7 +33,7 @@ ASSUMPTIONS = [
     "faults are raised between operations of the body (not inside __enter__/__exit__ themselves)",
 ]
 
-CONTEXTS = ["A1", "A2", "P1", "P2"]
+CONTEXTS = ["A1", "A2", "A3", "P1", "P2"]
 ABSENT = "<absent>"
 
 
@@ -115,9 +115,11 @@ class World:
     def make(self, c):
         pool = None
         if c == "A1":
-            cm = self.a.auto_checkpoint(self.path(f"p1_{len(self.entered)}"), every=1)
+            cm = self.a.auto_checkpoint(self.path("p1"), every=1)
         elif c == "A2":
-            cm = self.a.auto_checkpoint(self.path(f"p2_{len(self.entered)}"), every=2, save_config=False)
+            cm = self.a.auto_checkpoint(self.path("p2"), every=2, save_config=False)
+        elif c == "A3":  # the same file as A1 with other options
+            cm = self.a.auto_checkpoint(self.path("p1"), every=3, save_config=False)
         elif c == "P1":
             pool = FakePool(f"pool{len(self.pools)}")
             cm = self.a.enable_pool(pool, close_pool=True)
@@ -151,11 +153,11 @@ class World:
 
     def inside_checks(self):
         """Non-vacuity: while inside, the overrides are really active."""
-        a_ctx = [e for e in self.entered if e["ctx"] in ("A1", "A2")]
+        a_ctx = [e for e in self.entered if e["ctx"] in ("A1", "A2", "A3")]
         d = getattr(self.a, "_checkpoint_defaults", ABSENT)
         if a_ctx:
             top = a_ctx[-1]
-            want_every = 1 if top["ctx"] == "A1" else 2
+            want_every = {"A1": 1, "A2": 2, "A3": 3}[top["ctx"]]
             if d is ABSENT or d.get("every") != want_every or d.get("save_config") != (top["ctx"] == "A1"):
                 self.problems.append(("override-not-active/auto_checkpoint", d if d is ABSENT else dict(d)))
         p_ctx = [e for e in self.entered if e["ctx"] in ("P1", "P2")]
@@ -171,7 +173,7 @@ class World:
     def _after_exit(self, e, where):
         # a pool context does not own the checkpoint defaults: the body may legitimately have updated the
         # active defaults' saved_* flags by sampling, so only the identity of the dict is required there
-        self.same(e["snap"], where, content=e["ctx"] in ("A1", "A2"))
+        self.same(e["snap"], where, content=e["ctx"] in ("A1", "A2", "A3"))
         pool = e["pool"]
         if pool is not None:
             if e["ctx"] == "P1" and (pool.closed, pool.joined) != (1, 1):
@@ -239,7 +241,7 @@ class World:
 
     def key(self):
         d = getattr(self.a, "_checkpoint_defaults", ABSENT)
-        dv = ABSENT if d is ABSENT else (os.path.basename(d["path"]).split("_")[0], d["every"], d["save_config"],
+        dv = ABSENT if d is ABSENT else (os.path.basename(d["path"]).split(".")[0], d["every"], d["save_config"],
                                          d.get("saved_config"), d.get("saved_flow"))
 
         def depth(f):
@@ -250,7 +252,7 @@ class World:
             return n
 
         def dsig(o):
-            return ABSENT if o is ABSENT else (os.path.basename(o["path"]).split("_")[0], o["every"], o["save_config"],
+            return ABSENT if o is ABSENT else (os.path.basename(o["path"]).split(".")[0], o["every"], o["save_config"],
                                                o.get("saved_config"), o.get("saved_flow"))
 
         saved = tuple(dsig(e["snap"]["defaults_obj"]) for e in self.entered)
@@ -302,7 +304,7 @@ def run_bfs(arg):
                 acts.append(("exit",))
                 acts.append(("raise", "Exception"))
                 acts.append(("raise", "KeyboardInterrupt"))
-                if w.sampled == 0 and any(e["ctx"] in ("A1", "A2") for e in w.entered):
+                if w.sampled == 0 and any(e["ctx"] in ("A1", "A2", "A3") for e in w.entered):
                     acts.append(("sample",))
             return acts
 
